@@ -55,6 +55,19 @@ class AugmentedNodeMixin:
             index += 1
         return (prefix, index)
 
+    def _copy_augmentednode_dict(self, G):
+        """Give the copy ``G`` F-node and S-node registries of its own.
+
+        ``MixedEdgeGraph.copy`` copies the graph attributes shallowly, which would leave the
+        copy and the original writing into the same two dictionaries.
+        """
+        f_nodes = collections.defaultdict(lambda: collections.defaultdict(set))
+        for f_node, f_dict in self.graph["F-nodes"].items():
+            for key, val in f_dict.items():
+                f_nodes[f_node][key] = set(val) if isinstance(val, set) else val
+        G.graph["F-nodes"] = f_nodes
+        G.graph["S-nodes"] = dict(self.graph["S-nodes"])
+
     def add_f_node(self, intervention_set: Set[Node], require_unique=True, domain=None):
         """Add an F-node to the graph.
 
@@ -276,6 +289,11 @@ class AugmentedGraph(ADMG, AugmentedNodeMixin):
         # verify validity of F nodes
         self._verify_augmentednode_dict()
 
+    def copy(self):
+        G = super().copy()
+        self._copy_augmentednode_dict(G)
+        return G
+
     def remove_node(self, n):
         if n in self.f_nodes:
             del self.graph["F-nodes"][n]
@@ -383,6 +401,11 @@ class AugmentedPAG(PAG, AugmentedNodeMixin):
         )
 
         self._verify_augmentednode_dict()
+
+    def copy(self):
+        G = super().copy()
+        self._copy_augmentednode_dict(G)
+        return G
 
     def remove_node(self, n):
         if n in self.f_nodes:
